@@ -190,7 +190,11 @@ func init() {
 
 	// C12: concurrent writers; the peer's raw byte log must be handshake + whole frames, per-writer order preserved, each accepted write once
 	outScenario := func(name string, quick bool, writers, per int, sizes []int, wq int, gz int, stall bool) {
-		register(&scenario{Name: name, Props: []string{"C12", "C17"}, Quick: quick, Run: func(t *T) {
+		props := []string{"C12", "C17"}
+		if stall {
+			props = append(props, "C06") // a stalled peer must not hang request calls
+		}
+		register(&scenario{Name: name, Props: props, Quick: quick, Run: func(t *T) {
 			p := newPeer(t, t.Transport, t.Version)
 			defer p.Shutdown()
 			p.onConn = func(pc *peerConn) {
@@ -417,16 +421,42 @@ func init() {
 				}
 			case 106:
 				pc.Drop()
+			case 107: // unsolicited heartbeat answers with ordinary and extreme heartbeat ids (uint32 ids travel as int32 in the body)
+				for _, id := range []uint32{5, 0x7fffffff, 0x80000000, 0xfffffffe} {
+					v := int32(id)
+					b, _ := pb.Marshal(&control.Heartbeat{Timestamp: 1, HeartbeatId: &v})
+					if pc.ws != nil {
+						pc.WsControl(10, b)
+					} else {
+						pc.Send(specFrame{typ: 2, cmd: 1, rid: id, body: b})
+					}
+				}
+				time.Sleep(t.U(1))
+				pc.Send(respFrame(f, 0, []byte("after-pongs")))
+			case 108: // a burst of pushes behind a slow subscriber, then an abrupt drop: everything received must still be delivered
+				for i := 0; i < 12; i++ {
+					pc.Send(pushFrame(51, []byte(fmt.Sprintf("b%02d", i))))
+				}
+				time.Sleep(t.U(2))
+				pc.Drop()
 			}
 		}
 		cfg := defaultCfg()
-		cfg.Handlers = map[uint32][]func(*protocol.Packet){50: {func(pk *protocol.Packet) { add("push:" + string(pk.Body)) }}}
+		first51 := int32(0)
+		cfg.ReadQueue = 64
+		cfg.Handlers = map[uint32][]func(*protocol.Packet){50: {func(pk *protocol.Packet) { add("push:" + string(pk.Body)) }},
+			51: {func(pk *protocol.Packet) {
+				if atomic.CompareAndSwapInt32(&first51, 0, 1) {
+					time.Sleep(t.U(8)) // the rest of the burst queues up behind this call; the drop happens meanwhile
+				}
+				add("push:" + string(pk.Body))
+			}}}
 		cl, err := t.NewClient(p, cfg)
 		if err != nil {
 			t.Check("setup", false, "dial: %v", err)
 			return
 		}
-		for _, cmd := range []uint32{100, 101, 102, 103, 104, 100, 105, 100, 106, 100} {
+		for _, cmd := range []uint32{100, 101, 102, 103, 107, 104, 100, 105, 100, 108, 100, 106, 100} {
 			r := t.Do(cl, fmt.Sprintf("cmd-%d-%d", cmd, len(trace)), cmd, 6)
 			switch {
 			case r.Err == nil:
@@ -442,11 +472,18 @@ func init() {
 					add(fmt.Sprintf("do %d -> %s", cmd, kind))
 				}
 			}
-			if cmd >= 104 {
-				t.Sleep(12) // recovery window
+			if cmd >= 104 && cmd != 107 {
+				t.Sleep(14) // recovery window
 			}
 		}
 		cl.Close(nil)
+		pongIds := []string{}
+		for _, e := range t.events {
+			if e.Kind == "cb.pong" {
+				pongIds = append(pongIds, fmt.Sprint(e.F["rid"]))
+			}
+		}
+		add("pongs " + strings.Join(pongIds, ","))
 		add(fmt.Sprintf("callbacks ping=%d after_reconnected=%d on_close=%d", atomic.LoadInt32(&t.pingCb), atomic.LoadInt32(&t.afterRec), atomic.LoadInt32(&t.onClose)))
 		mu.Lock()
 		canon := strings.Join(trace, " ; ")
